@@ -17,7 +17,7 @@ ID = 'C19'
 PROGRAMS = {'core': dict(crate='vaporetto', features=['train', 'kytea']),
             'tool': dict(crate='manipulate_model', target='bin', bin_name='manipulate_model', extra=[dict(crate='vaporetto')])}
 UNIT_CAP = 200
-BUDGET_S = {'quick': 200, 'thorough': 1800}
+BUDGET_S = {'quick': 600, 'thorough': 1200}      # wall-clock safety caps (exceeding one is reported as inconclusive); typical quick runs take 1-200 s
 
 # (base shape, new dictionary words)
 EDITS = {
@@ -34,7 +34,7 @@ BOUNDS = {
                             'any other scalar value (symbolic)}; weights from four patterns incl. i32::MIN/MAX; hand-written CSV records with 1..2-character words and '
                             '1..4 weights (mismatching) or an unparsable weight'},
     'thorough': {'edits': sorted(EDITS), 'text_chars': '1..5', 'weights': 'signed 16-bit', 'record check': 'words of 0..4 symbolic characters x 0..6 weights',
-                 'model tool': 'as quick plus 1 word of 2 characters with a comment and 2 words of 2 characters'},
+                 'model tool': 'as quick plus 1 word of 2 characters with a comment, and 2 words of 2 characters over {comma, quote, #, LF, any other value}'},
 }
 OUTSIDE = ('the csv crate itself is replaced by a contract model (writer: QuoteStyle::Necessary of csv-core; reader: transcription of csv-core 0.1.13\'s NFA with the '
            'ReaderBuilder options the code sets; serde maps flat String structs by header name) and zstd by the identity on the model stream: defects inside those '
@@ -73,7 +73,7 @@ def jobs(tier, seed):
                 js.append({'name': 'tool/w%d/l%d/c%d' % (nwords, wl, cl), 'kind': 'tool', 'prog': 'tool', 'nwords': nwords, 'wl': wl, 'cl': cl})
     if tier != 'quick':
         js.append({'name': 'tool/w1/l2/c1', 'kind': 'tool', 'prog': 'tool', 'nwords': 1, 'wl': 2, 'cl': 1})
-        js.append({'name': 'tool/w2/l2/c0', 'kind': 'tool', 'prog': 'tool', 'nwords': 2, 'wl': 2, 'cl': 0})
+        js.append({'name': 'tool/w2/l2/c0', 'kind': 'tool', 'prog': 'tool', 'nwords': 2, 'wl': 2, 'cl': 0, 'classes': ',"#\n'})
     for nch in (1, 2):
         for nw in (1, 2, 3, 4):
             if nw != nch + 1:
@@ -161,8 +161,8 @@ def make_tool(e, progs, job, st):
         if job['kind'] == 'tool':
             recs = []; syms = []
             for k in range(job['nwords']):
-                w = S.sym_string(e, 'w%d_' % k, job['wl'], TOOL_CLASSES, exclude='\0')
-                c = S.sym_string(e, 'c%d_' % k, job['cl'], TOOL_CLASSES, exclude='\0')
+                w = S.sym_string(e, 'w%d_' % k, job['wl'], job.get('classes', TOOL_CLASSES), exclude='\0')
+                c = S.sym_string(e, 'c%d_' % k, job['cl'], job.get('classes', TOOL_CLASSES), exclude='\0')
                 pat = WEIGHT_PATTERNS[e.choose(len(WEIGHT_PATTERNS))][:job['wl'] + 1]
                 recs.append((hlib.build_str(e, w.chars), pat, hlib.build_str(e, c.chars)))
                 syms.append((w, pat, c))
